@@ -264,6 +264,11 @@ TMove ==
           \/ /\ "ttl" \notin chk /\ Ev.c # 0 /\ Held(Ev.c, i) /\ ~deliv[i] /\ cons[Ev.c].cat = "x" /\ Overdue(i)
              /\ st' = [st EXCEPT ![i] = "gone"] /\ loc' = [loc EXCEPT ![i] = Zero] /\ holder' = [holder EXCEPT ![i] = NoC]
              /\ UNCHANGED <<now, meta, origin, deliv, ret, cons, norder, transit, pend, calls, taint>>
+          \* C11: a consumer leaves the messages of topics it does not serve alone -- it never makes one disappear (clause `route')
+          \/ /\ "route" \notin chk /\ Ev.c # 0 /\ cl.op = "consume" /\ Live(i) /\ holder[i] = NoC /\ ~transit[i] /\ new = Zero
+             /\ cons[Ev.c].q = meta[i].q /\ ~Matches(Ev.c, i)
+             /\ st' = [st EXCEPT ![i] = "gone"] /\ loc' = [loc EXCEPT ![i] = Zero] /\ norder' = Rm(norder, i)
+             /\ UNCHANGED <<now, meta, holder, origin, deliv, ret, cons, transit, pend, calls, taint>>
           \* C14: settling one message (ack / nack / reject / requeue) never takes another one away from its holder (clause `holder')
           \/ /\ "holder" \notin chk /\ cl.op \in {"ack", "nack", "reject", "requeue"} /\ cl.i # i /\ holder[i] # NoC /\ loc[i] = U("p")
              /\ \E pl \in Cats : ReturnHeld(holder[i], i, pl)
